@@ -47,6 +47,9 @@ pub enum TOp {
     /// n inserts (keys round robin), NOT atomic: one switch point (`fb.next`) before every
     /// insert; used with the fair adversary (family `fair`)
     FBurst(u16, u8),
+    /// n lookups (keys round robin) with one switch point (`fb.next`) before each: the
+    /// producer of read records for the fair adversary
+    FGBurst(u16, u8),
 }
 
 impl TOp {
@@ -64,6 +67,7 @@ impl TOp {
             TOp::Burst(n, k) => format!("burst({n},{k})"),
             TOp::GBurst(n, k) => format!("gburst({n},{k})"),
             TOp::FBurst(n, k) => format!("fburst({n},{k})"),
+            TOp::FGBurst(n, k) => format!("fgburst({n},{k})"),
         }
     }
     pub fn parse(s: &str) -> TOp {
@@ -85,11 +89,12 @@ impl TOp {
             "burst" => TOp::Burst(a[0], a[1] as u8),
             "gburst" => TOp::GBurst(a[0], a[1] as u8),
             "fburst" => TOp::FBurst(a[0], a[1] as u8),
+            "fgburst" => TOp::FGBurst(a[0], a[1] as u8),
             _ => panic!("bad thread op {s}"),
         }
     }
     fn is_burst(&self) -> bool {
-        matches!(self, TOp::Burst(..) | TOp::GBurst(..) | TOp::FBurst(..))
+        matches!(self, TOp::Burst(..) | TOp::GBurst(..) | TOp::FBurst(..) | TOp::FGBurst(..))
     }
     fn writes_key(&self) -> Option<u8> {
         match *self {
@@ -557,6 +562,14 @@ fn thread_body(c: &SC, clock: &MockClock, cfg: &Cfg, sh: &Arc<Shared>, me: usize
                 }
                 Obs::Unit
             }
+            TOp::FGBurst(n, keys) => {
+                for i in 0..n {
+                    sched.event(Event::Switch("fb.next"));
+                    let _ = c.get(&K::probe((i % keys.max(1) as u16) as u8));
+                    FB_DONE.fetch_add(1, SeqCst);
+                }
+                Obs::Unit
+            }
             TOp::Burst(n, keys) => {
                 sh.m.lock().unwrap().atomic[me] = true;
                 for i in 0..n {
@@ -801,16 +814,16 @@ fn check_history(prog: &Program, all: &[Rec], viol: &mut Vec<Violation>) {
     // began, so it ends although another thread keeps writing. Under the fair adversary
     // (consumer and producer take turns, one op each) a call that returns only when the
     // producer has no insert left would never return beside a producer that does not stop.
-    let fb_total: u64 = prog.threads.iter().flatten().map(|o| if let TOp::FBurst(n, _) = o { *n as u64 } else { 0 }).sum();
+    let fb_total: u64 = prog.threads.iter().flatten().map(|o| if let TOp::FBurst(n, _) | TOp::FGBurst(n, _) = o { *n as u64 } else { 0 }).sum();
     if fb_total > 0 {
         let k = mini_moka::verif::constants();
-        let most = ((k.max_sync_repeats + 1) * k.write_log_size) as u64;
+        let most = ((k.max_sync_repeats + 1) * k.write_log_size.max(k.read_log_size)) as u64;
         for r in all {
-            if r.thread >= 0 && r.completed && !matches!(r.op, TOp::FBurst(..)) && fb_total > most && r.fb_done >= fb_total {
-                let starts_before_end = all.iter().any(|x| matches!(x.op, TOp::FBurst(..)) && x.thread != r.thread && r.start < x.end);
+            if r.thread >= 0 && r.completed && !matches!(r.op, TOp::FBurst(..) | TOp::FGBurst(..)) && fb_total > most && r.fb_done >= fb_total {
+                let starts_before_end = all.iter().any(|x| matches!(x.op, TOp::FBurst(..) | TOp::FGBurst(..)) && x.thread != r.thread && r.start < x.end);
                 if starts_before_end {
                     let d = format!(
-                        "T{}#{} {} returned only after the other thread had completed all its {fb_total} inserts (one per op the call applied); a maintenance pass applies at most {most} queued writes, so the call can only have ended because the writer stopped",
+                        "T{}#{} {} returned only after the other thread had completed all its {fb_total} calls (one per op the call applied); a maintenance pass applies at most {most} queued ops of a kind, so the call can only have ended because the other thread stopped",
                         r.thread, r.idx, r.op.text()
                     );
                     viol.push(Violation { prop: "C09", sig: "sched:call-ends-only-when-writers-stop".into(), detail: d, witness: String::new() });
@@ -1177,7 +1190,7 @@ pub fn explore(prog: &Program, bound: u32, max_schedules: u64, deadline: Instant
     let mut outcomes: HashSet<u64> = HashSet::new();
     let mut sigs: HashSet<(String, String)> = HashSet::new();
     let prune = crate::seqx::Prune::from_env();
-    let max_events = 40000 + prog.threads.iter().flatten().map(|o| if let TOp::Burst(n, _) | TOp::GBurst(n, _) | TOp::FBurst(n, _) = o { *n as u64 * 40 } else { 0 }).sum::<u64>();
+    let max_events = 40000 + prog.threads.iter().flatten().map(|o| if let TOp::Burst(n, _) | TOp::GBurst(n, _) | TOp::FBurst(n, _) | TOp::FGBurst(n, _) = o { *n as u64 * 40 } else { 0 }).sum::<u64>();
     // determinism: the first schedule twice
     journal.write(&witness(prog, &[]));
     let a = run_once(prog, &hasher, &[], max_events);
@@ -1792,7 +1805,7 @@ pub fn family(name: &str, tier: &str) -> Vec<Program> {
         // the maintenance beside a writer that produces one op for every op applied
         "fair" => {
             let k = mini_moka::verif::constants();
-            let n = ((k.max_sync_repeats + 1) * k.write_log_size + 200) as u16;
+            let n = ((k.max_sync_repeats + 1) * k.write_log_size.max(k.read_log_size) + 200) as u16;
             for cap in [None, Some(8u64)] {
                 for pre in [vec![Op::Ins(0, 1), Op::Ins(1, 1), Op::Ins(2, 1)], vec![Op::Ins(0, 1), Op::Sync, Op::Ins(1, 1), Op::Get(0), Op::Ins(2, 1), Op::Get(1)]] {
                     for (t0, beyond) in [(TOp::Sync, true), (TOp::Sync, false), (TOp::Ins(3, 1), false), (TOp::Get(0), false)] {
@@ -1800,7 +1813,9 @@ pub fn family(name: &str, tier: &str) -> Vec<Program> {
                         c.nkeys = 12;
                         c.beyond = beyond;
                         c.alpha = "fair".into();
-                        out.push(Program { cfg: c, prefix: pre.clone(), threads: vec![vec![t0], vec![TOp::FBurst(n, 8)]] });
+                        out.push(Program { cfg: c.clone(), prefix: pre.clone(), threads: vec![vec![t0], vec![TOp::FBurst(n, 8)]] });
+                        // ... and beside a reader that delivers one read record for every record applied
+                        out.push(Program { cfg: c, prefix: pre.clone(), threads: vec![vec![t0], vec![TOp::FGBurst(n, 3)]] });
                     }
                 }
             }
